@@ -403,9 +403,11 @@ class C15(Check):
         # report the smallest failing history first
         ctx.violations.sort(key=lambda v: len(json.dumps(v['witness'], default=repr)))
         ctx.disagreements.sort(key=lambda d: len(json.dumps(d['input'], default=repr)))
+        if os.environ.get('C15_DUMP'):                # development aid
+            json.dump(ctx.disagreements, open(os.environ['C15_DUMP'], 'w'), default=repr)
 
     def search(self, ctx):
-        if os.environ.get('C15_ONLY'):
+        if os.environ.get('C15_ONLY') or os.environ.get('C15_NOSEARCH'):     # development aids
             return
         super().search(ctx)
 
@@ -433,6 +435,9 @@ class C15(Check):
                 m = out[j]
                 j += 1
                 got = outcome + ' ' + post
+                if m != got and os.environ.get('C15_DUMP'):          # development aid: every mismatch
+                    with open(os.environ['C15_DUMP'] + '.all', 'a') as f:
+                        f.write(json.dumps([h, G.to_json_op(op), got, m]) + '\n')
                 if m != got:
                     ctx.disagree('history step', {'history': h, 'op': G.to_json_op(op), 'pre': pre,
                                                   'ops_so_far': self.hist_ops.get(h)},
